@@ -11,50 +11,52 @@ use vh_lite::{read_cases, drive, drive_group, quiet_panics, Out};
 mod tc_right__par;
 mod tc_left__topar;
 mod tc_left__srcred;
-mod tc_left__permpar;
-mod tc_nonlin__topar;
-mod mutual__ser;
-mod mutual__src0;
-mod mutual__srcpar;
-mod scc_chain__ser;
-mod scc_chain__permpar;
-mod consts__par;
-mod repeated__permpar;
-mod three_dyn__topar;
-mod four_dyn__ser;
-mod conds__gen;
-mod conds__runpar;
-mod expr_args__pari;
-mod multi_head__pari;
-mod facts__par;
-mod facts__srcto;
+mod tc_left__perm2;
+mod tc_nonlin__pari;
+mod tc_nonlin__u64;
+mod mutual__mrt;
+mod mutual__init;
+mod mutual__permpar;
+mod scc_chain__topar;
+mod diamond__ser;
+mod repeated__pari;
+mod three_dyn__ser;
+mod three_dyn__permpar;
+mod conds__par;
+mod conds__srcto;
+mod conds__perm1;
+mod count_up__par;
+mod multi_head__topar;
+mod facts__run;
+mod facts__redecl;
 mod facts__ren;
 mod opt_cols__run;
 mod opt_cols__redecl;
-mod same_gen__par;
-mod same_gen__str;
-mod not_reorderable__perm1;
-mod pre_join_rec__topar;
-mod two_inputs__to;
-mod two_inputs__srcto;
-mod two_inputs__ren;
-mod ternary__ser;
-mod ternary__u64;
-mod bound_mix__permpar;
-mod join_chain__perm2;
-mod cond_simple_join__pari;
-mod zero_arity__pari;
-mod lag_right__topar;
-mod lag_left__ser;
-mod lag_three__to;
-mod lag_mid__permpar;
-mod lag_late_delta__topar;
-mod sp_dual__ser;
-mod sp_dual__src0;
-mod sp_dual__srcpar;
-mod sp_weighted__to;
-mod set_reach__par;
-mod set_reach__src1;
+mod cartesian__pari;
+mod same_gen__ren;
+mod not_reorderable__to;
+mod pre_join_rec__pari;
+mod two_inputs__par;
+mod two_inputs__src1;
+mod two_inputs__runpar;
+mod two_inputs__strpar;
+mod ternary__perm2;
+mod bound_mix__pari;
+mod join_chain__ser;
+mod join_chain__u64;
+mod reach__to;
+mod lag_right__ser;
+mod lag_right__permpar;
+mod lag_left__topar;
+mod lag_mid__pari;
+mod lag_late_delta__ser;
+mod multi_head_rec__to;
+mod sp_dual__topar;
+mod sp_dual__srcred;
+mod sp_dual__perm2;
+mod longest_capped__ser;
+mod set_reach__to;
+mod set_reach__srcto;
 mod bset__ser;
 mod cp__to;
 mod lat_tree__to;
@@ -63,105 +65,108 @@ mod lat_multi_improve__pari;
 mod lat_count_all__ser;
 mod lat_input__pari;
 mod lat_input__src2;
-mod count_paths__par;
-mod count_paths__src1;
-mod neg_basic__ser;
-mod neg_basic__src0;
-mod neg_basic__srcpar;
-mod agg_minmaxsum__par;
-mod agg_lattice__par;
-mod neg_rec_after__par;
-mod agg_empty__par;
-mod agg_empty_rel__topar;
-mod agg_pre_join__pari;
-mod disj__gen;
+mod lat_input__srcpar;
+mod count_paths__gen;
+mod count_paths__init3;
+mod neg_basic__topar;
+mod neg_basic__srcred;
+mod neg_basic__perm2;
+mod agg_depth__ser;
+mod agg_lattice__to;
+mod neg_rec_after__exp;
+mod agg_empty__to;
+mod agg_const_args__par;
+mod disj__par;
+mod disj__src1;
 mod disj__runpar;
 mod disj_nested__ser;
 mod pat_args__exp;
 mod multi_head_disj__par;
 mod neg_in_disj__exppar;
 mod mac_basic__gen;
-mod mac_basic__runpar;
-mod mac_capture__exppar;
-mod mac_gensym_disj__pari;
-mod mac_block__ser;
-mod mac_disj__exp;
-mod stress_rel__ser;
-mod rnd_core_02__pari;
-mod rnd_core_05__par;
-mod rnd_core_08__ser;
-mod rnd_core_10__pari;
-mod rnd_core_13__par;
-mod rnd_core_16__ser;
-mod rnd_core_18__pari;
-mod rnd_core_21__par;
-mod rnd_core_24__ser;
-mod rnd_core_26__pari;
-mod rnd_core_29__par;
-mod rnd_agg_02__ser;
-mod rnd_agg_04__pari;
-mod rnd_agg_07__par;
-mod rnd_agg_10__ser;
-mod rnd_agg_12__pari;
-mod rnd_agg_15__par;
-mod rnd_prec_02__par;
-mod rnd_prec_03__topar;
-mod rnd_prec_05__pari;
-mod rnd_prec_07__ser;
-mod rnd_prec_08__to;
-mod rnd_prea_03__ser;
-mod rnd_prea_05__pari;
-mod rnd_prea_08__par;
+mod mac_basic__init3;
+mod mac_capture__pari;
+mod mac_gensym_disj__ser;
+mod mac_local_names__exp;
+mod mac_disj__par;
+mod stress_set__par;
+mod rnd_core_02__ser;
+mod rnd_core_04__pari;
+mod rnd_core_07__par;
+mod rnd_core_10__ser;
+mod rnd_core_12__pari;
+mod rnd_core_15__par;
+mod rnd_core_18__ser;
+mod rnd_core_20__pari;
+mod rnd_core_23__par;
+mod rnd_core_26__ser;
+mod rnd_core_28__pari;
+mod rnd_agg_01__par;
+mod rnd_agg_04__ser;
+mod rnd_agg_06__pari;
+mod rnd_agg_09__par;
+mod rnd_agg_12__ser;
+mod rnd_agg_14__pari;
+mod rnd_prec_01__topar;
+mod rnd_prec_03__pari;
+mod rnd_prec_05__ser;
+mod rnd_prec_06__to;
+mod rnd_prec_08__par;
+mod rnd_prea_02__par;
+mod rnd_prea_05__ser;
+mod rnd_prea_07__pari;
 
 fn lookup(name: &str) -> fn() -> Box<dyn Driven> {
    match name {
       "tc_right__par" => tc_right__par::make,
       "tc_left__topar" => tc_left__topar::make,
       "tc_left__srcred" => tc_left__srcred::make,
-      "tc_left__permpar" => tc_left__permpar::make,
-      "tc_nonlin__topar" => tc_nonlin__topar::make,
-      "mutual__ser" => mutual__ser::make,
-      "mutual__src0" => mutual__src0::make,
-      "mutual__srcpar" => mutual__srcpar::make,
-      "scc_chain__ser" => scc_chain__ser::make,
-      "scc_chain__permpar" => scc_chain__permpar::make,
-      "consts__par" => consts__par::make,
-      "repeated__permpar" => repeated__permpar::make,
-      "three_dyn__topar" => three_dyn__topar::make,
-      "four_dyn__ser" => four_dyn__ser::make,
-      "conds__gen" => conds__gen::make,
-      "conds__runpar" => conds__runpar::make,
-      "expr_args__pari" => expr_args__pari::make,
-      "multi_head__pari" => multi_head__pari::make,
-      "facts__par" => facts__par::make,
-      "facts__srcto" => facts__srcto::make,
+      "tc_left__perm2" => tc_left__perm2::make,
+      "tc_nonlin__pari" => tc_nonlin__pari::make,
+      "tc_nonlin__u64" => tc_nonlin__u64::make,
+      "mutual__mrt" => mutual__mrt::make,
+      "mutual__init" => mutual__init::make,
+      "mutual__permpar" => mutual__permpar::make,
+      "scc_chain__topar" => scc_chain__topar::make,
+      "diamond__ser" => diamond__ser::make,
+      "repeated__pari" => repeated__pari::make,
+      "three_dyn__ser" => three_dyn__ser::make,
+      "three_dyn__permpar" => three_dyn__permpar::make,
+      "conds__par" => conds__par::make,
+      "conds__srcto" => conds__srcto::make,
+      "conds__perm1" => conds__perm1::make,
+      "count_up__par" => count_up__par::make,
+      "multi_head__topar" => multi_head__topar::make,
+      "facts__run" => facts__run::make,
+      "facts__redecl" => facts__redecl::make,
       "facts__ren" => facts__ren::make,
       "opt_cols__run" => opt_cols__run::make,
       "opt_cols__redecl" => opt_cols__redecl::make,
-      "same_gen__par" => same_gen__par::make,
-      "same_gen__str" => same_gen__str::make,
-      "not_reorderable__perm1" => not_reorderable__perm1::make,
-      "pre_join_rec__topar" => pre_join_rec__topar::make,
-      "two_inputs__to" => two_inputs__to::make,
-      "two_inputs__srcto" => two_inputs__srcto::make,
-      "two_inputs__ren" => two_inputs__ren::make,
-      "ternary__ser" => ternary__ser::make,
-      "ternary__u64" => ternary__u64::make,
-      "bound_mix__permpar" => bound_mix__permpar::make,
-      "join_chain__perm2" => join_chain__perm2::make,
-      "cond_simple_join__pari" => cond_simple_join__pari::make,
-      "zero_arity__pari" => zero_arity__pari::make,
-      "lag_right__topar" => lag_right__topar::make,
-      "lag_left__ser" => lag_left__ser::make,
-      "lag_three__to" => lag_three__to::make,
-      "lag_mid__permpar" => lag_mid__permpar::make,
-      "lag_late_delta__topar" => lag_late_delta__topar::make,
-      "sp_dual__ser" => sp_dual__ser::make,
-      "sp_dual__src0" => sp_dual__src0::make,
-      "sp_dual__srcpar" => sp_dual__srcpar::make,
-      "sp_weighted__to" => sp_weighted__to::make,
-      "set_reach__par" => set_reach__par::make,
-      "set_reach__src1" => set_reach__src1::make,
+      "cartesian__pari" => cartesian__pari::make,
+      "same_gen__ren" => same_gen__ren::make,
+      "not_reorderable__to" => not_reorderable__to::make,
+      "pre_join_rec__pari" => pre_join_rec__pari::make,
+      "two_inputs__par" => two_inputs__par::make,
+      "two_inputs__src1" => two_inputs__src1::make,
+      "two_inputs__runpar" => two_inputs__runpar::make,
+      "two_inputs__strpar" => two_inputs__strpar::make,
+      "ternary__perm2" => ternary__perm2::make,
+      "bound_mix__pari" => bound_mix__pari::make,
+      "join_chain__ser" => join_chain__ser::make,
+      "join_chain__u64" => join_chain__u64::make,
+      "reach__to" => reach__to::make,
+      "lag_right__ser" => lag_right__ser::make,
+      "lag_right__permpar" => lag_right__permpar::make,
+      "lag_left__topar" => lag_left__topar::make,
+      "lag_mid__pari" => lag_mid__pari::make,
+      "lag_late_delta__ser" => lag_late_delta__ser::make,
+      "multi_head_rec__to" => multi_head_rec__to::make,
+      "sp_dual__topar" => sp_dual__topar::make,
+      "sp_dual__srcred" => sp_dual__srcred::make,
+      "sp_dual__perm2" => sp_dual__perm2::make,
+      "longest_capped__ser" => longest_capped__ser::make,
+      "set_reach__to" => set_reach__to::make,
+      "set_reach__srcto" => set_reach__srcto::make,
       "bset__ser" => bset__ser::make,
       "cp__to" => cp__to::make,
       "lat_tree__to" => lat_tree__to::make,
@@ -170,55 +175,56 @@ fn lookup(name: &str) -> fn() -> Box<dyn Driven> {
       "lat_count_all__ser" => lat_count_all__ser::make,
       "lat_input__pari" => lat_input__pari::make,
       "lat_input__src2" => lat_input__src2::make,
-      "count_paths__par" => count_paths__par::make,
-      "count_paths__src1" => count_paths__src1::make,
-      "neg_basic__ser" => neg_basic__ser::make,
-      "neg_basic__src0" => neg_basic__src0::make,
-      "neg_basic__srcpar" => neg_basic__srcpar::make,
-      "agg_minmaxsum__par" => agg_minmaxsum__par::make,
-      "agg_lattice__par" => agg_lattice__par::make,
-      "neg_rec_after__par" => neg_rec_after__par::make,
-      "agg_empty__par" => agg_empty__par::make,
-      "agg_empty_rel__topar" => agg_empty_rel__topar::make,
-      "agg_pre_join__pari" => agg_pre_join__pari::make,
-      "disj__gen" => disj__gen::make,
+      "lat_input__srcpar" => lat_input__srcpar::make,
+      "count_paths__gen" => count_paths__gen::make,
+      "count_paths__init3" => count_paths__init3::make,
+      "neg_basic__topar" => neg_basic__topar::make,
+      "neg_basic__srcred" => neg_basic__srcred::make,
+      "neg_basic__perm2" => neg_basic__perm2::make,
+      "agg_depth__ser" => agg_depth__ser::make,
+      "agg_lattice__to" => agg_lattice__to::make,
+      "neg_rec_after__exp" => neg_rec_after__exp::make,
+      "agg_empty__to" => agg_empty__to::make,
+      "agg_const_args__par" => agg_const_args__par::make,
+      "disj__par" => disj__par::make,
+      "disj__src1" => disj__src1::make,
       "disj__runpar" => disj__runpar::make,
       "disj_nested__ser" => disj_nested__ser::make,
       "pat_args__exp" => pat_args__exp::make,
       "multi_head_disj__par" => multi_head_disj__par::make,
       "neg_in_disj__exppar" => neg_in_disj__exppar::make,
       "mac_basic__gen" => mac_basic__gen::make,
-      "mac_basic__runpar" => mac_basic__runpar::make,
-      "mac_capture__exppar" => mac_capture__exppar::make,
-      "mac_gensym_disj__pari" => mac_gensym_disj__pari::make,
-      "mac_block__ser" => mac_block__ser::make,
-      "mac_disj__exp" => mac_disj__exp::make,
-      "stress_rel__ser" => stress_rel__ser::make,
-      "rnd_core_02__pari" => rnd_core_02__pari::make,
-      "rnd_core_05__par" => rnd_core_05__par::make,
-      "rnd_core_08__ser" => rnd_core_08__ser::make,
-      "rnd_core_10__pari" => rnd_core_10__pari::make,
-      "rnd_core_13__par" => rnd_core_13__par::make,
-      "rnd_core_16__ser" => rnd_core_16__ser::make,
-      "rnd_core_18__pari" => rnd_core_18__pari::make,
-      "rnd_core_21__par" => rnd_core_21__par::make,
-      "rnd_core_24__ser" => rnd_core_24__ser::make,
-      "rnd_core_26__pari" => rnd_core_26__pari::make,
-      "rnd_core_29__par" => rnd_core_29__par::make,
-      "rnd_agg_02__ser" => rnd_agg_02__ser::make,
-      "rnd_agg_04__pari" => rnd_agg_04__pari::make,
-      "rnd_agg_07__par" => rnd_agg_07__par::make,
-      "rnd_agg_10__ser" => rnd_agg_10__ser::make,
-      "rnd_agg_12__pari" => rnd_agg_12__pari::make,
-      "rnd_agg_15__par" => rnd_agg_15__par::make,
-      "rnd_prec_02__par" => rnd_prec_02__par::make,
-      "rnd_prec_03__topar" => rnd_prec_03__topar::make,
-      "rnd_prec_05__pari" => rnd_prec_05__pari::make,
-      "rnd_prec_07__ser" => rnd_prec_07__ser::make,
-      "rnd_prec_08__to" => rnd_prec_08__to::make,
-      "rnd_prea_03__ser" => rnd_prea_03__ser::make,
-      "rnd_prea_05__pari" => rnd_prea_05__pari::make,
-      "rnd_prea_08__par" => rnd_prea_08__par::make,
+      "mac_basic__init3" => mac_basic__init3::make,
+      "mac_capture__pari" => mac_capture__pari::make,
+      "mac_gensym_disj__ser" => mac_gensym_disj__ser::make,
+      "mac_local_names__exp" => mac_local_names__exp::make,
+      "mac_disj__par" => mac_disj__par::make,
+      "stress_set__par" => stress_set__par::make,
+      "rnd_core_02__ser" => rnd_core_02__ser::make,
+      "rnd_core_04__pari" => rnd_core_04__pari::make,
+      "rnd_core_07__par" => rnd_core_07__par::make,
+      "rnd_core_10__ser" => rnd_core_10__ser::make,
+      "rnd_core_12__pari" => rnd_core_12__pari::make,
+      "rnd_core_15__par" => rnd_core_15__par::make,
+      "rnd_core_18__ser" => rnd_core_18__ser::make,
+      "rnd_core_20__pari" => rnd_core_20__pari::make,
+      "rnd_core_23__par" => rnd_core_23__par::make,
+      "rnd_core_26__ser" => rnd_core_26__ser::make,
+      "rnd_core_28__pari" => rnd_core_28__pari::make,
+      "rnd_agg_01__par" => rnd_agg_01__par::make,
+      "rnd_agg_04__ser" => rnd_agg_04__ser::make,
+      "rnd_agg_06__pari" => rnd_agg_06__pari::make,
+      "rnd_agg_09__par" => rnd_agg_09__par::make,
+      "rnd_agg_12__ser" => rnd_agg_12__ser::make,
+      "rnd_agg_14__pari" => rnd_agg_14__pari::make,
+      "rnd_prec_01__topar" => rnd_prec_01__topar::make,
+      "rnd_prec_03__pari" => rnd_prec_03__pari::make,
+      "rnd_prec_05__ser" => rnd_prec_05__ser::make,
+      "rnd_prec_06__to" => rnd_prec_06__to::make,
+      "rnd_prec_08__par" => rnd_prec_08__par::make,
+      "rnd_prea_02__par" => rnd_prea_02__par::make,
+      "rnd_prea_05__ser" => rnd_prea_05__ser::make,
+      "rnd_prea_07__pari" => rnd_prea_07__pari::make,
       _ => panic!("no such program variant in this shard: {}", name),
    }
 }
